@@ -21,10 +21,16 @@ logging.getLogger("param").setLevel(logging.CRITICAL)
 TABLE = {}          # (generator identity, time) -> value, shared by all behaviours of this worker
 
 
+class NotTimeDependent(param.Number):
+    """a Number whose dynamic values are produced at every read, whatever param.Dynamic.time_dependent says"""
+    time_dependent = False
+
+
 class P(param.Parameterized):
     a = param.Number(default=0)
     b = param.Number(default=0)
     c = param.Number(default=0, constant=True)
+    e = NotTimeDependent(default=0)
 
 
 class Counter:
@@ -33,6 +39,9 @@ class Counter:
         self.k = 0
 
     def __call__(self):
+        if getattr(self, "fail_next", False):
+            self.fail_next = False
+            raise RuntimeError("the generator failed")
         self.k += 1
         return float(self.k)
 
@@ -88,6 +97,11 @@ class System:
             if i not in self.objs:
                 self.objs[i] = P()
                 used[i] = 0
+            if gen[s] == "N":
+                g = Counter()
+                setattr(self.objs[i], "e", g)
+                self.slot[int(s)] = (self.objs[i], "e", gen[s])
+                continue
             pname = "ab"[used[i]]
             used[i] += 1
             if gen[s] == "K":
@@ -139,11 +153,17 @@ class System:
         elif n == "enter":
             self.cms.append(self.tf.__enter__())
         elif n == "exit":
+            if self.enc in ("fraction", "float"):
+                # inside the context the time type is switched to int (which also moves the time, as any jump
+                # inside the context may); leaving the context must still restore the entry time exactly
+                self.tf(int(self.tf()), time_type=int)
             if a["raising"]:
                 self.tf.__exit__(RuntimeError, RuntimeError("body"), None)
             else:
                 self.tf.__exit__(None, None, None)
             self.cms.pop()
+            if self.enc in ("fraction", "float"):
+                self.tf(self.tf(), time_type={"fraction": Fraction, "float": float}[self.enc])     # back to the exact type
         else:
             obj, pname, _ = self.slot[a["s"]]
             if n == "read":
@@ -152,6 +172,22 @@ class System:
                 return obj.param.inspect_value(pname)
             if n == "force":
                 return obj.param.force_new_dynamic_value(pname)
+            if n == "readfail":
+                gen = obj.param.get_value_generator(pname)
+                gen.fail_next = True
+                try:
+                    getattr(obj, pname)
+                except RuntimeError:
+                    return None
+                finally:
+                    gen.fail_next = False
+                return "no exception"
+            if n == "rejectupd":
+                try:
+                    obj.param.update(**{pname: "not a number"})
+                except ValueError:
+                    return None
+                return "accepted"
             if n == "reject":
                 gen = obj.param.get_value_generator(pname)
                 try:
@@ -178,12 +214,16 @@ class System:
         if len(self.tf._pushed_state) != st["depth"] and hasattr(self.tf, "_pushed_state"):
             return ("context", "after %s %d time contexts are open, spec expects %d" % (name, len(self.tf._pushed_state), st["depth"]))
         term = st["ret"]
+        if name == "readfail" and ret is not None:
+            return ("result", "the generator raised during a read but the read returned normally")
+        if name == "rejectupd" and ret is not None:
+            return ("result", "param.update with an invalid value for the generator-holding parameter was not refused")
         if name in ("read", "inspect", "force"):
             if term[0] == "none":
                 if ret is not None:
                     return ("value", "%s before any read returned %r, spec expects None" % (name, ret))
                 return None
-            if term[0] == "K":
+            if term[0] in ("K", "N"):
                 if ret != float(term[1]):
                     return ("same_time_same_value", "%s of the counter-backed parameter returned %r, spec expects the value of production number %d "
                             "(a read at an unchanged time must return the cached value, a read at a new time produces exactly once)" % (name, ret, term[1]))
